@@ -64,7 +64,7 @@ else:
                 for fh in ("", "xor", "delegate_table", "xor,delegate_table"):
                     for tb in (0, 1, 32):
                         GRID.append(params(bs, jj, fp, fh, tb))
-    SEEDS = ["prng:%d" % i for i in range(1, 4)]
+    SEEDS = ["prng:%d" % i for i in range(1, 3)]
 variants = []
 for gi, pr in enumerate(GRID):
     for sd in SEEDS:
@@ -81,8 +81,8 @@ for ri, pr in enumerate(REP):
         variants.append({"id": "gs%d_%d" % (ri, gs), "params": pr, "base": "prng:1", "over": {}, "gseed": gs, "only": "", "exclude": EXCL, "record": False})
 # deviation-1 exploration: record the base trace per representative setting, then deviate draws per call site
 rec = harness([{"id": "rec%d" % ri, "params": pr, "base": "prng:1", "over": {}, "gseed": 1, "only": "", "exclude": EXCL, "record": True} for ri, pr in enumerate(REP)])
-ALTS = [0, 255 << 32, (1 << 63) - 1] if tier == "quick" else [0, 1 << 32, 2 << 32, 3 << 32, 7 << 32, 255 << 32, 256 << 32, ((1 << 31) - 2) << 32, 0x00FFFFFF << 32, (1 << 63) - 1, 0x0101010101010101]
-MAXOCC = 1 if tier == "quick" else 6
+ALTS = [0, 255 << 32, (1 << 63) - 1] if tier == "quick" else [0, 1 << 32, 3 << 32, 255 << 32, 0x00FFFFFF << 32, (1 << 63) - 1]
+MAXOCC = 1 if tier == "quick" else 3
 site_dev = {}
 draws_total = 0
 for ri, pr in enumerate(REP):
